@@ -27,6 +27,7 @@ MAP = {
     "header_fuzz": ["alter", "crash", "close"],
     "header_layout": ["alter", "crash"],
     "page_alter": ["alter", "alter_tree"],
+    "short_open": ["short_open", "close"],
 }
 
 _lock = threading.Lock()
